@@ -45,13 +45,22 @@ func c07Raw(t []byte) string {
 	if len(t) == 0 {
 		return "{nil}"
 	}
+	// Raw text of a tree can come from a {literal} block (" // x", "/* x */", braces): printed bare, "//" after a
+	// space or "/*" would open a comment that swallows the rest of the line / the text up to "*/" (and with it lets,
+	// uses, {for} tags: the reprinted bundle would be a DIFFERENT bundle).  Braces are printed as {lb}/{rb}, and the
+	// two bytes of a comment opener are separated by {nil}, after which the lexer's previous character is '}'.
 	var sb strings.Builder
-	for _, c := range t {
+	for i, c := range t {
 		switch c {
 		case '{':
 			sb.WriteString("{lb}")
 		case '}':
 			sb.WriteString("{rb}")
+		case '/':
+			sb.WriteByte(c)
+			if i+1 < len(t) && (t[i+1] == '/' || t[i+1] == '*') {
+				sb.WriteString("{nil}")
+			}
 		default:
 			sb.WriteByte(c)
 		}
@@ -930,6 +939,51 @@ func c07Parse(files []srcFile) ([]*ast.SoyFileNode, error) {
 	return out, nil
 }
 
+// c07Shape is the tree without its raw text (node types in order, with the names the data-reference rules read):
+// printing a tree and parsing the result must keep it, or the printer has produced a DIFFERENT bundle (a comment
+// opener in raw text swallowing tags, say) and no verdict about that bundle says anything about the tree.
+func c07Shape(n ast.Node, sb *strings.Builder) {
+	switch n := n.(type) {
+	case nil:
+		return
+	case *ast.RawTextNode, *ast.IntNode, *ast.FloatNode:
+		return
+	case *ast.NegateNode: // -(4) is printed (-4), which parses to the literal
+		c07Shape(n.Arg, sb)
+		return
+	case *ast.DataRefNode:
+		sb.WriteString("$" + n.Key)
+	case *ast.LetValueNode:
+		sb.WriteString("let:" + n.Name)
+	case *ast.LetContentNode:
+		sb.WriteString("letc:" + n.Name)
+	case *ast.ForNode:
+		sb.WriteString("for:" + n.Var)
+	case *ast.CallNode:
+		sb.WriteString("call:" + n.Name)
+	case *ast.FunctionNode:
+		sb.WriteString("fn:" + n.Name)
+	default:
+		fmt.Fprintf(sb, "%T", n)
+	}
+	if p, ok := n.(ast.ParentNode); ok {
+		sb.WriteString("(")
+		for _, c := range p.Children() {
+			c07Shape(c, sb)
+		}
+		sb.WriteString(")")
+	}
+}
+
+func c07ShapeOf(trees []*ast.SoyFileNode) string {
+	var sb strings.Builder
+	for _, t := range trees {
+		c07Shape(t, &sb)
+		sb.WriteString("\n")
+	}
+	return sb.String()
+}
+
 func c07FilesSexp(trees []*ast.SoyFileNode, ids *idTable) string {
 	var fs []string
 	for _, t := range trees {
@@ -1289,6 +1343,8 @@ func runC07(e *env) {
 		}
 		if rt, err := c07Parse(re); err != nil {
 			e.res.Fail(hx.Violation{Kind: "mismatch", What: "harness: the printed tree of a valid bundle does not parse", Case: c07Case{Files: re}, Observed: err.Error()}, "")
+		} else if c07ShapeOf(rt) != c07ShapeOf(trees) {
+			e.res.Fail(hx.Violation{Kind: "mismatch", What: "harness: the printed tree of a valid bundle parses to a different tree (source printer of c07.go)", Case: c07Case{Files: re}, Observed: c07ShapeOf(rt) + "\n=====\n" + c07ShapeOf(trees)}, "")
 		} else {
 			pend = append(pend, c07Pending{c: c07Case{Files: re}, valid: true, realErr: c07Compile(re)})
 			reqs = append(reqs, "c07_compile "+c07FilesSexp(rt, ids))
@@ -1310,6 +1366,7 @@ func runC07(e *env) {
 			}
 			s := sites[k]
 			s.apply()
+			mshape := c07ShapeOf(fresh)
 			var mf []srcFile
 			for _, t := range fresh {
 				mf = append(mf, srcFile{t.Name, c07FileSrc(t)})
@@ -1319,6 +1376,9 @@ func runC07(e *env) {
 			if err != nil {
 				e.res.Fail(hx.Violation{Kind: "mismatch", What: "harness: a mutated tree does not print to parsable source", Case: c, Observed: err.Error()}, "")
 				continue
+			}
+			if got := c07ShapeOf(mt); got != mshape {
+				e.res.Histogram["mutated-tree-reparses-differently"]++
 			}
 			pend = append(pend, c07Pending{c: c, valid: false, realErr: c07Compile(mf)})
 			reqs = append(reqs, "c07_compile "+c07FilesSexp(mt, ids))
